@@ -314,6 +314,12 @@ def classify_finding(kind_, case, detail):
         return "C06-F06c1"
     if last and last[0] in ("add", "addto") and (case.get("cur_len") == 0 or len(last[1]) == 0) and "invalid shape" in d:
         return "C06-F06c2"
+    # the same root cause one step later: an EMPTY collection was concatenated earlier in the history (its vector arrays have no row shape and are padded
+    # as scalars), and a later concatenation meets real vector rows
+    structural = [o for o in ops if o[0] not in ("setfn", "propget", "setlen")]
+    if last and last[0] in ("add", "addto") and ("inhomogeneous shape" in d or "invalid shape" in d) and case.get("sids") == [] and structural \
+            and structural[0][0] in ("add", "addto") and len(structural) > 1:
+        return "C06-F06c2"
     return None
 
 
@@ -443,6 +449,9 @@ def run(ctx):
                 last = m["ops"][-1]
                 # known modelling gap: empty + empty with a vector array raises in the implementation (finding F06c2)
                 if last[0] in ("add", "addto") and exp in ([1], [2]) and (len(last[1]) == 0 or prev_len.get(id(m)) == 0):
+                    continue
+                # ... and its downstream form (classified as the same known finding: see classify_finding)
+                if exp in ([1], [2]) and classify_finding("history", dict(m, cur_len=prev_len.get(id(m))), "inhomogeneous shape") == "C06-F06c2":
                     continue
                 nbad += 1
                 first = first or "%s: model=%s impl=%s" % (m, canon_model(mv), exp)
